@@ -45,6 +45,13 @@ Proof.
   destruct (Eval.eval re cfg ls a d) as [r [e|]|]; cbn; try reflexivity. destruct r; cbn; reflexivity.
 Qed.
 
+Lemma c03_de_morgan_or cfg ls a b d :
+  eval cfg ls (ENot (EBin BOr a b)) d = eval cfg ls (EBin BAnd (ENot a) (ENot b)) d.
+Proof.
+  rewrite c03_not, c03_and, c03_or, !c03_not.
+  destruct (Eval.eval re cfg ls a d) as [r [e|]|]; cbn; try reflexivity. destruct r; cbn; reflexivity.
+Qed.
+
 (* ---------- C04 ---------- *)
 Definition neg_of (p : matchop) : matchop :=
   match p with OpEq => OpNeq | OpIn => OpNotIn | OpIsEmpty => OpIsNotEmpty | OpMatches => OpNotMatches | o => o end.
